@@ -249,3 +249,68 @@ package forwarder
 //@   serves C03 C07
 //@   at call RemoveURROID:
 //@     assert [oid]   len(arg2) == 2 && arg2[0] == lSeid && arg2[1] == uint64(val(req.URRID()))
+
+// QER towards the kernel (C03): every child IE value is handed on under the attribute of its own kind; the 40-bit
+// bit rates are split into their high 32 and low 8 bits (gtp5g's representation).
+
+//@ func (g *Gtp5g) CreateQER(lSeid uint64, req *ie.IE) (err error)
+//@   requires g != nil && g.link != nil && req != nil
+//@   modifies nothing
+//@   serves C03 C07
+//@   loop range(ies):
+//@     modifies nothing
+//@   at call append#1:
+//@     assert [corr] len(arg1) == 1 && arg1[0].Type == gtp5gnl.QER_CORR_ID && arg1[0].Value == iface(nl.AttrU32(v))
+//@   at call append#2:
+//@     assert [gate] len(arg1) == 1 && arg1[0].Type == gtp5gnl.QER_GATE && arg1[0].Value == iface(nl.AttrU8(v))
+//@   at call append#3:
+//@     assert [mbr]  len(arg1) == 1 && arg1[0].Type == gtp5gnl.QER_MBR && typeis(arg1[0].Value, nl.AttrList) && len(arg1[0].Value.(nl.AttrList)) == 4 &&
+//@                   arg1[0].Value.(nl.AttrList)[0].Type == gtp5gnl.QER_MBR_UL_HIGH32 && arg1[0].Value.(nl.AttrList)[0].Value == iface(nl.AttrU32(uint32(ul >> 8))) &&
+//@                   arg1[0].Value.(nl.AttrList)[1].Type == gtp5gnl.QER_MBR_UL_LOW8 && arg1[0].Value.(nl.AttrList)[1].Value == iface(nl.AttrU8(uint8(ul))) &&
+//@                   arg1[0].Value.(nl.AttrList)[2].Type == gtp5gnl.QER_MBR_DL_HIGH32 && arg1[0].Value.(nl.AttrList)[2].Value == iface(nl.AttrU32(uint32(dl >> 8))) &&
+//@                   arg1[0].Value.(nl.AttrList)[3].Type == gtp5gnl.QER_MBR_DL_LOW8 && arg1[0].Value.(nl.AttrList)[3].Value == iface(nl.AttrU8(uint8(dl)))
+//@   at call append#4:
+//@     assert [gbr]  len(arg1) == 1 && arg1[0].Type == gtp5gnl.QER_GBR && typeis(arg1[0].Value, nl.AttrList) && len(arg1[0].Value.(nl.AttrList)) == 4 &&
+//@                   arg1[0].Value.(nl.AttrList)[0].Type == gtp5gnl.QER_GBR_UL_HIGH32 && arg1[0].Value.(nl.AttrList)[0].Value == iface(nl.AttrU32(uint32(ul >> 8))) &&
+//@                   arg1[0].Value.(nl.AttrList)[1].Type == gtp5gnl.QER_GBR_UL_LOW8 && arg1[0].Value.(nl.AttrList)[1].Value == iface(nl.AttrU8(uint8(ul))) &&
+//@                   arg1[0].Value.(nl.AttrList)[2].Type == gtp5gnl.QER_GBR_DL_HIGH32 && arg1[0].Value.(nl.AttrList)[2].Value == iface(nl.AttrU32(uint32(dl >> 8))) &&
+//@                   arg1[0].Value.(nl.AttrList)[3].Type == gtp5gnl.QER_GBR_DL_LOW8 && arg1[0].Value.(nl.AttrList)[3].Value == iface(nl.AttrU8(uint8(dl)))
+//@   at call append#5:
+//@     assert [qfi]  len(arg1) == 1 && arg1[0].Type == gtp5gnl.QER_QFI && arg1[0].Value == iface(nl.AttrU8(v))
+//@   at call append#6:
+//@     assert [rqi]  len(arg1) == 1 && arg1[0].Type == gtp5gnl.QER_RQI && arg1[0].Value == iface(nl.AttrU8(v))
+//@   at call append#7:
+//@     assert [ppi]  len(arg1) == 1 && arg1[0].Type == gtp5gnl.QER_PPI && arg1[0].Value == iface(nl.AttrU8(v))
+//@   at call CreateQEROID:
+//@     assert [oid]  len(arg2) == 2 && arg2[0] == lSeid && arg2[1] == qerid && arg3 == attrs
+
+//@ func (g *Gtp5g) UpdateQER(lSeid uint64, req *ie.IE) (err error)
+//@   requires g != nil && g.link != nil && req != nil
+//@   modifies nothing
+//@   serves C03 C07
+//@   loop range(ies):
+//@     modifies nothing
+//@   at call append#1:
+//@     assert [corr] len(arg1) == 1 && arg1[0].Type == gtp5gnl.QER_CORR_ID && arg1[0].Value == iface(nl.AttrU32(v))
+//@   at call append#2:
+//@     assert [gate] len(arg1) == 1 && arg1[0].Type == gtp5gnl.QER_GATE && arg1[0].Value == iface(nl.AttrU8(v))
+//@   at call append#3:
+//@     assert [mbr]  len(arg1) == 1 && arg1[0].Type == gtp5gnl.QER_MBR && typeis(arg1[0].Value, nl.AttrList) && len(arg1[0].Value.(nl.AttrList)) == 4 &&
+//@                   arg1[0].Value.(nl.AttrList)[0].Type == gtp5gnl.QER_MBR_UL_HIGH32 && arg1[0].Value.(nl.AttrList)[0].Value == iface(nl.AttrU32(uint32(ul >> 8))) &&
+//@                   arg1[0].Value.(nl.AttrList)[1].Type == gtp5gnl.QER_MBR_UL_LOW8 && arg1[0].Value.(nl.AttrList)[1].Value == iface(nl.AttrU8(uint8(ul))) &&
+//@                   arg1[0].Value.(nl.AttrList)[2].Type == gtp5gnl.QER_MBR_DL_HIGH32 && arg1[0].Value.(nl.AttrList)[2].Value == iface(nl.AttrU32(uint32(dl >> 8))) &&
+//@                   arg1[0].Value.(nl.AttrList)[3].Type == gtp5gnl.QER_MBR_DL_LOW8 && arg1[0].Value.(nl.AttrList)[3].Value == iface(nl.AttrU8(uint8(dl)))
+//@   at call append#4:
+//@     assert [gbr]  len(arg1) == 1 && arg1[0].Type == gtp5gnl.QER_GBR && typeis(arg1[0].Value, nl.AttrList) && len(arg1[0].Value.(nl.AttrList)) == 4 &&
+//@                   arg1[0].Value.(nl.AttrList)[0].Type == gtp5gnl.QER_GBR_UL_HIGH32 && arg1[0].Value.(nl.AttrList)[0].Value == iface(nl.AttrU32(uint32(ul >> 8))) &&
+//@                   arg1[0].Value.(nl.AttrList)[1].Type == gtp5gnl.QER_GBR_UL_LOW8 && arg1[0].Value.(nl.AttrList)[1].Value == iface(nl.AttrU8(uint8(ul))) &&
+//@                   arg1[0].Value.(nl.AttrList)[2].Type == gtp5gnl.QER_GBR_DL_HIGH32 && arg1[0].Value.(nl.AttrList)[2].Value == iface(nl.AttrU32(uint32(dl >> 8))) &&
+//@                   arg1[0].Value.(nl.AttrList)[3].Type == gtp5gnl.QER_GBR_DL_LOW8 && arg1[0].Value.(nl.AttrList)[3].Value == iface(nl.AttrU8(uint8(dl)))
+//@   at call append#5:
+//@     assert [qfi]  len(arg1) == 1 && arg1[0].Type == gtp5gnl.QER_QFI && arg1[0].Value == iface(nl.AttrU8(v))
+//@   at call append#6:
+//@     assert [rqi]  len(arg1) == 1 && arg1[0].Type == gtp5gnl.QER_RQI && arg1[0].Value == iface(nl.AttrU8(v))
+//@   at call append#7:
+//@     assert [ppi]  len(arg1) == 1 && arg1[0].Type == gtp5gnl.QER_PPI && arg1[0].Value == iface(nl.AttrU8(v))
+//@   at call UpdateQEROID:
+//@     assert [oid]  len(arg2) == 2 && arg2[0] == lSeid && arg2[1] == qerid && arg3 == attrs
